@@ -30,6 +30,13 @@ def gen(rng, i, tier):
         lo, hi, wk = float(lo), float(hi), "between"
     else:
         lo, hi, wk = None, None, "absent"
+    if wk == "on-points" and rng.random() < 0.45:
+        # limits a hair away from grid points (a few ulps up to 1e-6 relative), on either side: the closed interval is exact,
+        # no tolerance may pull a point in or push one out
+        def nudge(v):
+            eps = float(rng.choice([4 * np.spacing(abs(v) + 1e-300), abs(v) * 1e-9 + 1e-12, abs(v) * 3e-6 + 3e-9]))
+            return float(v + eps * (1 if rng.random() < 0.5 else -1))
+        lo, hi, wk = nudge(lo), nudge(hi), "near-points"
     if lo is not None and int(((x >= lo) & (x <= hi)).sum()) < 2:
         lo, hi, wk = float(x[0]), float(x[-2]), "on-points"
     # one-sided windows: only xmin or only xmax given (the other side is the data range)
